@@ -3,6 +3,7 @@
 package verifharness
 
 import (
+	"bytes"
 	"fmt"
 	"math/rand"
 	"os"
@@ -155,7 +156,7 @@ func TestDriveC18(t *testing.T) {
 						}()
 					}
 					rec.Emit(Ev{"ev": "Exec", "api": api, "ownerRoot": uid == 0, "groupRoot": gid == 0, "mode": mode, "via": via,
-						"executed": ran(), "err": e != nil, "panic": pan, "anyx": mode&0o111 != 0, "out": strings.TrimSpace(o)})
+						"executed": ran(), "err": e != nil, "panic": pan, "anyx": mode&0o111 != 0, "out": strings.TrimSpace(o), "msg": fmtErr(e)})
 				}
 			}
 		}
@@ -192,6 +193,87 @@ func TestDriveC18(t *testing.T) {
 		rec.Emit(Ev{"ev": "Exec2",
 			"first":  Ev{"ownerRoot": a1[0] == 0, "groupRoot": a1[1] == 0, "mode": a1[2], "executed": r1, "err": e1 != nil, "panic": p1, "anyx": a1[2]&0o111 != 0},
 			"second": Ev{"ownerRoot": uid2 == 0, "groupRoot": gid2 == 0, "mode": mode2, "executed": r2, "err": e2 != nil, "panic": p2, "anyx": mode2&0o111 != 0}})
+	}
+	// executables named without a directory: the operating system finds them through $PATH, so the file that would run
+	// is the one in a $PATH directory - whatever a file of the same name in the working directory looks like
+	if shard == 0 {
+		pathDir := filepath.Join(dir, "pathdir")
+		cwdDir := filepath.Join(dir, "cwd")
+		must(os.MkdirAll(pathDir, 0755))
+		must(os.MkdirAll(cwdDir, 0755))
+		oldPath, oldWd := os.Getenv("PATH"), ""
+		if wd, err := os.Getwd(); err == nil {
+			oldWd = wd
+		}
+		os.Setenv("PATH", pathDir+":"+oldPath)
+		must(os.Chdir(cwdDir))
+		name := "verif-c18-tool"
+		cwdMarker := filepath.Join(dir, "marker-cwd")
+		put := func(d string, uid, gid int, mode os.FileMode) {
+			p := filepath.Join(d, name)
+			os.Remove(p)
+			b := body
+			if d == cwdDir {
+				b = fmt.Sprintf("#!/bin/sh\necho ran >> %s\necho 43\n", cwdMarker)
+			}
+			must(os.WriteFile(p, []byte(b), 0700))
+			must(os.Chown(p, uid, gid))
+			must(os.Chmod(p, mode))
+		}
+		for _, inPath := range [][3]int{{0, 0, 0o755}, {1000, 1000, 0o755}, {0, 0, 0o777}, {0, 1000, 0o775}} {
+			for _, inCwd := range [][3]int{{-1, 0, 0}, {0, 0, 0o755}, {1000, 1000, 0o777}} {
+				put(pathDir, inPath[0], inPath[1], os.FileMode(inPath[2]))
+				os.Remove(filepath.Join(cwdDir, name))
+				if inCwd[0] >= 0 {
+					put(cwdDir, inCwd[0], inCwd[1], os.FileMode(inCwd[2]))
+				}
+				os.Remove(cwdMarker)
+				_, e, pan := safeExec(name, nil, 2*time.Second)
+				_, cwdErr := os.Stat(cwdMarker)
+				// the file that ran (if any) is the one in $PATH: its attributes decide
+				rec.Emit(Ev{"ev": "ExecBare", "ownerRoot": inPath[0] == 0, "groupRoot": inPath[1] == 0, "mode": inPath[2], "executed": ran(), "cwdExecuted": cwdErr == nil,
+					"err": e != nil, "panic": pan, "cwdCopy": inCwd[0] >= 0, "cwdOwnerRoot": inCwd[0] == 0, "cwdMode": inCwd[2]})
+			}
+		}
+		os.Setenv("PATH", oldPath)
+		if oldWd != "" {
+			_ = os.Chdir(oldWd)
+		}
+	}
+	// the entry points of the program: every command that can end up running a configured executable - the daemon, `fan2go
+	// sensor`, `fan2go fan ... speed` - loads the configuration file first; the file's own ownership / mode must have been
+	// checked before any executable it names is run (real processes: this binary re-executed into cmd.Execute)
+	if shard == 1%shards {
+		cliDir := filepath.Join(dir, "cli")
+		must(os.MkdirAll(cliDir, 0755))
+		cliMarker := filepath.Join(cliDir, "marker")
+		tool := filepath.Join(cliDir, "tool.sh")
+		must(os.WriteFile(tool, []byte(fmt.Sprintf("#!/bin/sh\necho ran >> %s\necho 42\n", cliMarker)), 0755))
+		writeInt(filepath.Join(cliDir, "temp"), 50000)
+		writeInt(filepath.Join(cliDir, "pwm"), 100)
+		cfgFile := filepath.Join(cliDir, "fan2go.yaml")
+		yaml := fmt.Sprintf("dbPath: %s\nsensors:\n  - id: s1\n    file:\n      path: %s\n  - id: s2\n    cmd:\n      exec: %s\ncurves:\n  - id: c1\n    linear:\n      sensor: s1\n      min: 40\n      max: 80\n  - id: c2\n    linear:\n      sensor: s2\n      min: 40\n      max: 80\nfans:\n  - id: f1\n    curve: c1\n    file:\n      path: %s\n  - id: f2\n    curve: c2\n    cmd:\n      setPwm:\n        exec: %s\n        args: [\"%%pwm%%\"]\n      getPwm:\n        exec: %s\n",
+			filepath.Join(cliDir, "cli.db"), filepath.Join(cliDir, "temp"), tool, filepath.Join(cliDir, "pwm"), tool, tool)
+		entries := [][]string{{"sensor", "--id", "s2"}, {"fan", "--id", "f2", "speed"}, {"fan", "--id", "f2", "speed", "120"}, {}}
+		for _, perm := range [][3]int{{0, 0, 0o644}, {1000, 0, 0o644}, {0, 0, 0o666}, {0, 1000, 0o664}, {1000, 1000, 0o600}} {
+			for _, entry := range entries {
+				daemon := len(entry) == 0
+				if daemon && perm[0] == 0 && perm[1] == 0 && perm[2] == 0o644 {
+					continue // (an accepted configuration would really start the daemon; that is the subject of C03 / C15)
+				}
+				must(os.WriteFile(cfgFile, []byte(yaml), 0600))
+				must(os.Chown(cfgFile, perm[0], perm[1]))
+				must(os.Chmod(cfgFile, os.FileMode(perm[2])))
+				os.Remove(cliMarker)
+				var outb bytes.Buffer
+				args := append(append([]string{}, entry...), "-c", cfgFile)
+				cmd := StartChild("cli", args, filepath.Join(cliDir, "nohwmon"), filepath.Join(cliDir, "cli.trace"), &outb)
+				code, _, timedOut := waitExit(cmd, 6*time.Second)
+				_, merr := os.Stat(cliMarker)
+				rec.Emit(Ev{"ev": "CliExec", "entry": strings.Join(entry, " "), "ownerRoot": perm[0] == 0, "groupRoot": perm[1] == 0, "mode": perm[2],
+					"executed": merr == nil, "exit": code, "timedOut": timedOut, "out": tailStr(outb.String(), 200)})
+			}
+		}
 	}
 	// the configuration file itself: checked iff it declares a cmd sensor or fan
 	if shard == 0 {
